@@ -104,6 +104,10 @@ func (c *Client) validateVirtualChannelSettlementProposal(
 	if prop.Final.Params.ID() != prop.Final.State.ID {
 		return errors.New("invalid parameters")
 	}
+	// The balances are indexed by participant below.
+	if prop.Final.State.Valid() != nil || prop.Final.State.NumParts() != len(prop.Final.Params.Parts) {
+		return errors.New("state does not have one balance per participant")
+	}
 
 	// Validate signatures.
 	if len(prop.Final.Sigs) != len(prop.Final.Params.Parts) {
